@@ -94,7 +94,7 @@ def run_impl(case):
         probe = lib.random.Random()
         probe.setstate(rnd.getstate())
         ov_pre = build_layout(probe)[4]           # dry run: the sharing limit this case will draw (extra registers do not change it)
-        pre_elab = lib.rng_for(case["seed"], case["idx"], 424).random() < 0.3
+        pre_elab = lib.rng_for(case["seed"], case["idx"], 424).random() < 0.5
 
         def mk_early(mm_):
             mx = early.setdefault("mux", csr.Multiplexer(mm_, shadow_overlaps=ov_pre))
@@ -133,7 +133,7 @@ def run_impl(case):
     try:
         lib.peek_map(mm, (case["seed"], case["idx"], 51))
         mux = early.get("mux") or csr.Multiplexer(mm, shadow_overlaps=ov)
-        if "elaborated_at" in early and early["elaborated_at"] < len(mm._verif_placed) and lib.rng_for(case["seed"], case["idx"], 444).random() < .6:
+        if "elaborated_at" in early and early["elaborated_at"] < len(mm._verif_placed) and lib.rng_for(case["seed"], case["idx"], 444).random() < .5:
             # the first multiplexer (built and elaborated when the map was still incomplete) is dropped; a SECOND one over
             # the same, now complete, map is what gets simulated: it owes nothing to the first
             mux = csr.Multiplexer(mm, shadow_overlaps=ov)
